@@ -94,6 +94,10 @@ def programs(tier):
                     first = inner[0]
                     cap = Op(first.op, [B('ev0("c.x.0.0"); %s' % first.operands[0].text)] + first.operands[1:])
                     variants.append(("cap", [cap] + inner[1:]))
+                    # the same operand as a PARENTHESISED block: an ordinary expression, evaluated where it stands — inside the wrapper
+                    # closure, i.e. as often as that closure runs (never, once, once per item) and not before
+                    par = Op(first.op, [O('({ ev0("p.x.0.0"); %s })' % first.operands[0].text)] + first.operands[1:])
+                    variants.append(("paren", [par] + inner[1:]))
                 for vname, inn in variants:
                     # (name, items, final kind, pinned, kinds at the end of every step)
                     layouts = [("close", [Wrap(w.op, inn, close=True)], ok, w.pinned, [ok]), ("open", [Wrap(w.op, inn, close=False)], ok, w.pinned, [ok])]
